@@ -25,3 +25,41 @@ Definition spec_gcps (below : list sframe) : Z :=
   | [] => 0
   | g :: _ => match parameter_size g with Some n => n | None => 0 end
   end.
+
+(* ---- a whole x86 walk through FPO records (round 4): walk_stack's loop restricted to the STACK WIN FPO technique
+   (allocates_base_pointer = false: ebp is passed through), on the 32-bit abstract walker.  [lookup] = the symbol file
+   seen from an instruction pointer: the FPO record covering it and the parameter_size fill_symbol gives the frame
+   (None = no FUNC/PUBLIC record); [in_stack] = walk_stack's "stack pointer still inside the stack memory" test for
+   frames the unwinder produced itself.  x86::get_caller_frame ends the walk on eip < 4096 or a stack pointer that
+   does not grow. ---- *)
+Record xregs := mkX { x_eip : Z; x_esp : Z; x_ebp : Z }.
+
+Definition fpo_step (mem : Z -> option Z) (below : list sframe) (callee : sframe) (r : xregs) (i : win_info) : option xregs :=
+  let E := frames_env (fun n => assoc n [(N_eip, x_eip r); (N_esp, x_esp r); (N_ebp, x_ebp r)]) mem 0 below callee in
+  match walk_win_fpo (mock_ops 4) E i false m_init with
+  | (s, true) =>
+      match m_regs s N_eip, m_regs s N_esp, m_regs s N_ebp with
+      | SetTo a, SetTo b, SetTo c => Some (mkX a b c)
+      | _, _, _ => None
+      end
+  | (_, false) => None
+  end.
+
+Fixpoint fpo_walk (fuel : nat) (mem : Z -> option Z) (in_stack : Z -> bool) (lookup : Z -> option (win_info * option Z))
+                  (below : list sframe) (r : xregs) : list xregs :=
+  match fuel with
+  | O => []
+  | S k =>
+      if (match below with [] => true | _ :: _ => in_stack (x_esp r) end) then
+        match lookup (x_eip r) with
+        | None => []
+        | Some (i, ps) =>
+            match fpo_step mem below (mkSF ps) r i with
+            | Some r' =>
+                if (x_eip r' <? 4096) || (x_esp r' <=? x_esp r) then []
+                else r' :: fpo_walk k mem in_stack lookup (below ++ [mkSF ps]) r'
+            | None => []
+            end
+        end
+      else []
+  end.
